@@ -196,7 +196,9 @@ class Checker:
             raise FileNotFoundError(path)
 
         root = Path(path)
-        if root.name == self.name:
+        # the content of a single file torrent can not be a directory
+        single = "length" in self.info and root.is_dir()
+        if root.name == self.name and not single:
             self.log_msg("Content found: %s.", str(root))
             return root
 
